@@ -23,9 +23,15 @@ import time
 from concurrent.futures import ThreadPoolExecutor
 
 VERIF = os.path.dirname(os.path.dirname(os.path.abspath(__file__)))
-WORK = os.path.join(VERIF, ".work")
-LEAN = os.path.join(VERIF, "lean")
-REPO = os.environ.get("VERIF_REPO", "/repo")
+REPO = os.path.abspath(os.environ.get("VERIF_REPO", "/repo"))
+ALT = REPO != "/repo"
+# A run against a scratch copy of the repository (VERIF_REPO=/tmp/...) gets its own work
+# directory, its own synced copy of the Lean project (the extractors rewrite J5V/Generated) and
+# its own evidence directory, so that it never disturbs checks of /repo itself.
+WORK = os.path.join(VERIF, ".work") if not ALT else os.path.join(VERIF, ".work", "alt-" + hashlib.sha1(REPO.encode()).hexdigest()[:10])
+LEAN = os.path.join(VERIF, "lean") if not ALT else os.path.join(WORK, "lean")
+EVIDENCE_DIR = os.path.join(VERIF, "evidence") if not ALT else os.path.join(WORK, "evidence")
+DEV = os.environ.get("VERIF_DEV") == "1"
 GOENV = dict(os.environ, GOFLAGS="-mod=mod", GOPROXY="off",
              GONOSUMDB="*")
 ALLOWED_AXIOMS = {"propext", "Classical.choice", "Quot.sound"}
@@ -49,6 +55,12 @@ def sh(cmd, cwd=None, env=None, timeout=None, stdin=None, stdout_path=None):
     return rc, out.decode("utf-8", "replace"), time.time() - t0
 
 
+def sync_alt():
+    if ALT:
+        os.makedirs(WORK, exist_ok=True)
+        subprocess.run(["rsync", "-a", "--delete", os.path.join(VERIF, "lean") + "/", LEAN + "/"], check=True)
+
+
 def load_config(pid):
     path = os.path.join(VERIF, "checks", pid + ".py")
     spec = importlib.util.spec_from_file_location("check_" + pid, path)
@@ -58,11 +70,17 @@ def load_config(pid):
 
 
 def load_known():
-    path = os.path.join(VERIF, "known_findings.json")
-    if not os.path.exists(path):
-        return []
-    with open(path) as f:
-        return json.load(f).get("findings", [])
+    """known_findings.json plus (while the clusters are being built) known_findings.d/*.json."""
+    out = []
+    paths = [os.path.join(VERIF, "known_findings.json")]
+    d = os.path.join(VERIF, "known_findings.d")
+    if os.path.isdir(d):
+        paths += sorted(os.path.join(d, x) for x in os.listdir(d) if x.endswith(".json"))
+    for path in paths:
+        if os.path.exists(path):
+            with open(path) as f:
+                out += json.load(f).get("findings", [])
+    return out
 
 
 # ---------------------------------------------------------------- overlay / go builds
@@ -214,6 +232,9 @@ def lean_obligations(pid, props_rel):
 def build_driver(name):
     rc, log, dt = sh(["lake", "build", name], cwd=LEAN, timeout=3000)
     path = os.path.join(LEAN, ".lake", "build", "bin", name)
+    if rc != 0 and DEV and os.path.exists(path):
+        sys.stderr.write("VERIF_DEV: driver %s does not build right now, using the last built binary\n" % name)
+        return path, log
     return (path if rc == 0 and os.path.exists(path) else None), log
 
 
@@ -319,6 +340,7 @@ def write_replay(pid, idx, payload):
 
 
 def replay(pid, path):
+    sync_alt()
     cfg, mod = load_config(pid)
     rp = json.load(open(path))
     if "op" not in rp or not rp.get("stream"):
@@ -355,6 +377,7 @@ def replay(pid, path):
 
 def run_check(pid, tier, seed):
     t0 = time.time()
+    sync_alt()
     cfg, mod = load_config(pid)
     known = load_known()
     workdir = os.path.join(WORK, "runs", pid)
@@ -508,8 +531,8 @@ def run_check(pid, tier, seed):
     cov.update(extra.get("coverage", {}))
     ev = {"property_id": pid, "tier": tier, "seed": seed, "level": cfg.get("level", "proof"), "coverage": cov,
           "assumptions": cfg.get("assumptions", []), "wall_s": round(wall, 2), "violations": violations}
-    os.makedirs(os.path.join(VERIF, "evidence"), exist_ok=True)
-    with open(os.path.join(VERIF, "evidence", pid + ".json"), "w") as f:
+    os.makedirs(EVIDENCE_DIR, exist_ok=True)
+    with open(os.path.join(EVIDENCE_DIR, pid + ".json"), "w") as f:
         json.dump(ev, f, indent=1)
         f.write("\n")
     for l in lines:
